@@ -10,6 +10,8 @@ THEOREMS = [
     "C38.parse_render",
     "C38.parse_render_spaced",
     "C38.spec_position_is_index",
+    "C38.stray_parens_skipped",
+    "C38.parse_units",
     "C38.spec_accepts",
     "C38.parse_rejects_after_terminal",
     "C38.parse_no_raise_never_rejects",
@@ -473,5 +475,6 @@ LEVEL_TEXT = ("Lean theorems: the scanner model of parse (same alternation order
               "character-walk oracle.")
 LEVEL_NOTE = ("Integer timespans/shifts only (float timespans not modelled); printable-ASCII strings; float VALUES are carried as lexemes and turned "
               "into doubles by Python on both sides (the model decides only the grammar int / float / string). Strings outside the documented syntax "
-              "(unbalanced parentheses: silently skipped by findall without advancing time) are covered by the model and the correspondence but not by "
-              "parse_render. The TestScheduler queue discipline used for delivery is modelled (stable order by due time), not imported from C28.")
+              "(unbalanced parentheses: silently skipped by findall without advancing time) are covered by parse_render as well (tokens strayClose / strayOpen, "
+              "theorem stray_parens_skipped); float / timedelta / datetime timespans and shifts are covered in exact quarter-second units (parse_units: "
+              "the reading is homogeneous in the time unit). The TestScheduler queue discipline used for delivery is modelled (stable order by due time), not imported from C28.")
